@@ -102,7 +102,9 @@ FlatLit == {<<T("num", x), T("op", o1), T("num", y), T("op", o2), T("num", z)>> 
 \* C09: absent loop clauses, non-assignment init, directive arguments of every kind: must return (output or error)
 RawAny == {"@for(;;)x@break@end", "@for(i = 0; i < 2;)x@break@end", "@for(i = 0; ; i++)x@break@end", "@for(; false;)x@end",
            "@for(; k11;)x@end", "@for(i = 0; i < 2; )x@breakIf(true)@end", "@for(k2; false; k2)x@end", "@for(1; false; 1)x@end",
-           "@for(i = 0; i < 1; i++)@end", "@for(i = 0; i < 1; i = i + 1)x@end", "@for(i = k9; false; i++)x@end",
+           "@for(i = 0; i < 1; i++)@end", "@for(k1; k1 < 3; k1++)[{{ k1 }}]{{ k1 = k1 + 1 }}@end", "@for(k1; k1 < 2; k1++){{ k1 = k1 + 1 }}.@end",
+           "@for(1 + 1; k1 < 2; k1++){{ k1 = k1 + 1 }}<{{ k1 }}>@end", "@for(k9; k1 < 1; k9){{ k1 = k1 + 1 }}x@end", "@for(k1; k1 < 2; k1 = k1 + 1)x@end",
+           "@for(k14; k1 < 1; k14){{ k1 = k1 + 1 }}@end", "@for(nil; k1 < 1; nil){{ k1 = k1 + 1 }}@end", "@for(k1; k1 < 1; ){{ k1 = k1 + 1 }}y@end", "@for(i = 0; i < 1; i = i + 1)x@end", "@for(i = k9; false; i++)x@end",
            "@each(v in k14)@end", "@each(v in k14)@break@end", "@if(k1)@end", "@if(k2)@else@end", "@if(k1)@elseif(k2)@end",
            "@dump(k1, k9, k12, k14, k16)", "@dump()", "@dump(zz)", "@dump(k16.zz)", "@breakIf(k2)", "@continueIf(k2)", "@break", "@continue",
            "@insert(\"a\", k2)", "@insert(\"a\")x@end", "@reserve(\"a\")", "@reserve(k2)", "@use(\"nope\")", "@use(k2)",
